@@ -619,7 +619,10 @@ class Folder:
                 self.run(s.body if self.ev(s.test) else s.orelse)
             elif isinstance(s, ast.For):
                 broke = False
-                for item in list(self.ev(s.iter)):
+                seq = self.ev(s.iter)
+                if not hasattr(seq, "__next__"):
+                    seq = list(seq)             # (an iterator supplied by a rule is consumed lazily, as the loop would)
+                for item in seq:
                     self.assign(s.target, item)
                     try:
                         self.run(s.body)
